@@ -96,7 +96,10 @@ func svMDTok(md metadata.MD) int64 {
 	return tok
 }
 
-var svNames = map[string]int64{"": 0, "dst": 1, "src": 2, "elsewhere": 3, "src2": 4, "c-1": 5, "c-11": 6, "c-111": 7, "c-": 8}
+var svNames = map[string]int64{"": 0, "dst": 1, "src": 2, "elsewhere": 3, "src2": 4, "c-1": 5, "c-11": 6, "c-111": 7, "c-": 8, svLongName: 9}
+
+// a long, non-ASCII peer name
+var svLongName = strings.Repeat("пир-\u00e9\u4e16\u754c/", 40)
 
 func svNameTok(s string) int64 {
 	if t, ok := svNames[s]; ok {
